@@ -55,6 +55,25 @@ type literal struct {
 	name   string
 	fields map[string]ssa.Value
 	pos    token.Pos
+	// a literal built by a constructor helper: the helper's parameters are bound to the arguments of this call
+	env  map[*ssa.Parameter]ssa.Value
+	site *ssa.BasicBlock // where the literal comes into being in the analysed function
+}
+
+// envPath renders v like e5path.AccessPath, with the parameters of a constructor helper replaced by the
+// access paths of the arguments it was called with.
+func envPath(v ssa.Value, env map[*ssa.Parameter]ssa.Value) string {
+	p := e5path.AccessPath(v)
+	for prm, arg := range env {
+		n := prm.Name()
+		if p == n {
+			return e5path.AccessPath(arg)
+		}
+		if strings.HasPrefix(p, n+".") {
+			return e5path.AccessPath(arg) + p[len(n):]
+		}
+	}
+	return p
 }
 
 func literalsOf(fn *ssa.Function, names map[string]bool) []literal {
@@ -80,14 +99,62 @@ func literalsOf(fn *ssa.Function, names map[string]bool) []literal {
 					}
 				}
 			}
+			l.site = al.Block()
 			out = append(out, l)
+		}
+	}
+	// constructor helpers: a repository function of the same package whose only return value is such a literal
+	for _, b := range fn.Blocks {
+		for _, in := range b.Instrs {
+			call, ok := in.(*ssa.Call)
+			if !ok {
+				continue
+			}
+			h := call.Common().StaticCallee()
+			if h == nil || h.Pkg != fn.Pkg || h == fn || len(h.Blocks) == 0 || depthGuard > 2 {
+				continue
+			}
+			var ret *ssa.Return
+			nret := 0
+			for _, hb := range h.Blocks {
+				if rt, ok := hb.Instrs[len(hb.Instrs)-1].(*ssa.Return); ok {
+					ret = rt
+					nret++
+				}
+			}
+			if nret != 1 || len(ret.Results) != 1 {
+				continue
+			}
+			al, ok := ret.Results[0].(*ssa.Alloc)
+			if !ok || !names[structName(al.Type())] {
+				continue
+			}
+			depthGuard++
+			inner := literalsOf(h, names)
+			depthGuard--
+			for _, l := range inner {
+				if l.alloc != al {
+					continue
+				}
+				l.env = map[*ssa.Parameter]ssa.Value{}
+				for i, prm := range h.Params {
+					if i < len(call.Common().Args) {
+						l.env[prm] = call.Common().Args[i]
+					}
+				}
+				l.pos = call.Pos()
+				l.site = call.Block()
+				out = append(out, l)
+			}
 		}
 	}
 	return out
 }
 
+var depthGuard int
+
 // posExpr classifies a Line/Column value: "0", or "<node path>.<Field>-1", or other.
-func posExpr(v ssa.Value) (node, field string, ok bool) {
+func posExpr(v ssa.Value, env map[*ssa.Parameter]ssa.Value) (node, field string, ok bool) {
 	if c, isC := v.(*ssa.Const); isC && c.Value != nil && c.Value.Kind() == constant.Int {
 		if c.Int64() == 0 {
 			return "", "0", true
@@ -102,7 +169,7 @@ func posExpr(v ssa.Value) (node, field string, ok bool) {
 	if !isC || c.Value == nil || c.Int64() != 1 {
 		return "", "", false
 	}
-	path := e5path.AccessPath(bo.X)
+	path := envPath(bo.X, env)
 	i := strings.LastIndex(path, ".")
 	if i < 0 {
 		return "", "", false
@@ -157,11 +224,27 @@ func Run(p *load.Prog, r *oblig.Report) {
 	for _, l := range accepted {
 		v := l.fields["Value"]
 		construct := "accepted-value-chain"
-		// outermost: strings.ReplaceAll(D, "\\", "/")
-		name, call := staticName(v)
+		// outermost: strings.ReplaceAll(D, "\\", "/") — in this function, or as the successful result of a decode helper
 		okChain := false
 		var nodePath string
 		why := ""
+		chainV := v
+		var helperCall *ssa.Call // V = helper(node.Value): the chain lives in the helper
+		var helperParam *ssa.Parameter
+		if ex, ok := v.(*ssa.Extract); ok && ex.Index == 0 {
+			if hc, ok := ex.Tuple.(*ssa.Call); ok {
+				if h := hc.Common().StaticCallee(); h != nil && h.Pkg == fn.Pkg && len(h.Blocks) > 0 && h.Signature.Results().Len() == 2 {
+					for _, sr := range e5path.SuccessReturns(h) {
+						if len(sr.Results) == 2 {
+							chainV = sr.Results[0]
+							helperCall = hc
+						}
+					}
+				}
+			}
+		}
+		name, call := staticName(chainV)
+		var decodeTuple ssa.Value
 		if name == "strings.ReplaceAll" {
 			old, ok1 := constStr(call.Common().Args[1])
 			nw, ok2 := constStr(call.Common().Args[2])
@@ -170,7 +253,17 @@ func Run(p *load.Prog, r *oblig.Report) {
 				if ex, ok := d.(*ssa.Extract); ok && ex.Index == 0 {
 					dn, dcall := staticName(ex.Tuple)
 					if dn == "net/url.QueryUnescape" || dn == "net/url.PathUnescape" {
-						src := e5path.AccessPath(dcall.Common().Args[0])
+						decodeTuple = ex.Tuple
+						srcV := dcall.Common().Args[0]
+						if prm, isP := srcV.(*ssa.Parameter); isP && helperCall != nil {
+							helperParam = prm
+							for i, q := range prm.Parent().Params {
+								if q == prm && i < len(helperCall.Common().Args) {
+									srcV = helperCall.Common().Args[i]
+								}
+							}
+						}
+						src := e5path.AccessPath(srcV)
 						if strings.HasSuffix(src, ".Value") {
 							okChain = true
 							nodePath = strings.TrimSuffix(src, ".Value")
@@ -187,8 +280,9 @@ func Run(p *load.Prog, r *oblig.Report) {
 				why = fmt.Sprintf("ReplaceAll(%q → %q) is not the backslash normalisation", old, nw)
 			}
 		} else {
-			why = "the returned value is not the result of strings.ReplaceAll(decoded, \"\\\\\", \"/\") (outermost step must be the separator normalisation); it is " + e5path.AccessPath(v)
+			why = "the returned value is not the result of strings.ReplaceAll(decoded, \"\\\\\", \"/\") (outermost step must be the separator normalisation); it is " + e5path.AccessPath(chainV)
 		}
+		_ = helperParam
 		if okChain {
 			r.OK("R6.1", construct, pos(l.pos), "def-use", "V = ReplaceAll(QueryUnescape("+nodePath+".Value), \"\\\\\", \"/\")")
 		} else {
@@ -209,11 +303,18 @@ func Run(p *load.Prog, r *oblig.Report) {
 		}
 		got := map[string]bool{}
 		wrongOperand := map[string]string{}
-		decodeTuple := call.Common().Args[0].(*ssa.Extract).Tuple
-		for _, ce := range e5path.DominatingConds(l.alloc.Block()) {
+		// the decode error: in this function, or the error result of the decode helper (which must return the decode error itself)
+		errTuple := decodeTuple
+		if helperCall != nil {
+			errTuple = nil
+			if helperForwardsDecodeError(helperCall.Common().StaticCallee(), decodeTuple) {
+				errTuple = helperCall
+			}
+		}
+		for _, ce := range e5path.DominatingConds(l.site) {
 			switch c := ce.Cond.(type) {
 			case *ssa.BinOp:
-				if ex, ok := c.X.(*ssa.Extract); ok && ex.Tuple == decodeTuple && ex.Index == 1 {
+				if ex, ok := c.X.(*ssa.Extract); ok && errTuple != nil && ex.Tuple == errTuple && ex.Index == 1 {
 					if cn, ok := c.Y.(*ssa.Const); ok && cn.IsNil() && ((c.Op == token.NEQ && !ce.Branch) || (c.Op == token.EQL && ce.Branch)) {
 						got["decode-error-nil"] = true
 					}
@@ -224,27 +325,54 @@ func Run(p *load.Prog, r *oblig.Report) {
 					}
 				}
 			case *ssa.Call:
-				n, cc := staticName(c)
-				if cc == nil || len(cc.Common().Args) != 2 {
-					continue
+				type fact struct {
+					call    *ssa.Call
+					branch  bool
+					operand ssa.Value
 				}
-				arg, _ := constStr(cc.Common().Args[1])
-				key := ""
-				switch {
-				case n == "strings.Contains" && arg == "../" && !ce.Branch:
-					key = "no-dotdot"
-				case n == "strings.HasPrefix" && arg == "/" && !ce.Branch:
-					key = "not-absolute"
-				case n == "strings.HasSuffix" && arg == ".fga" && ce.Branch:
-					key = "fga-suffix"
+				facts := []fact{{c, ce.Branch, nil}}
+				// a boolean helper of the package: what its result implies about the library tests it makes on its parameter
+				if h := c.Common().StaticCallee(); h != nil && h.Pkg == fn.Pkg && len(h.Blocks) > 0 && len(h.Params) == len(c.Common().Args) {
+					facts = nil
+					for _, im := range impliedTests(h, ce.Branch) {
+						var operand ssa.Value
+						if prm, isP := im.call.Common().Args[0].(*ssa.Parameter); isP {
+							for i, q := range h.Params {
+								if q == prm {
+									operand = c.Common().Args[i]
+								}
+							}
+						}
+						facts = append(facts, fact{im.call, im.branch, operand})
+					}
 				}
-				if key == "" {
-					continue
-				}
-				if cc.Common().Args[0] == v {
-					got[key] = true
-				} else {
-					wrongOperand[key] = e5path.AccessPath(cc.Common().Args[0])
+				for _, f := range facts {
+					n, cc := staticName(f.call)
+					if cc == nil || len(cc.Common().Args) != 2 {
+						continue
+					}
+					arg, _ := constStr(cc.Common().Args[1])
+					key := ""
+					switch {
+					case n == "strings.Contains" && arg == "../" && !f.branch:
+						key = "no-dotdot"
+					case n == "strings.HasPrefix" && arg == "/" && !f.branch:
+						key = "not-absolute"
+					case n == "strings.HasSuffix" && arg == ".fga" && f.branch:
+						key = "fga-suffix"
+					}
+					if key == "" {
+						continue
+					}
+					operand := cc.Common().Args[0]
+					if f.operand != nil {
+						operand = f.operand
+					}
+					if operand == v {
+						got[key] = true
+					} else {
+						wrongOperand[key] = e5path.AccessPath(operand)
+					}
 				}
 			}
 		}
@@ -261,7 +389,7 @@ func Run(p *load.Prog, r *oblig.Report) {
 		}
 		// positions of the accepted entry must be those of the same node
 		for _, f := range []string{"Line", "Column"} {
-			node, fld, ok := posExpr(l.fields[f])
+			node, fld, ok := posExpr(l.fields[f], l.env)
 			construct := "position:accepted-entry:" + f
 			if ok && node == nodePath && fld == f {
 				r.OK("R6.4", construct, pos(l.pos), "same-node", node+"."+f+" - 1")
@@ -283,8 +411,8 @@ func Run(p *load.Prog, r *oblig.Report) {
 			continue
 		}
 		n++
-		ln, lf, ok1 := posExpr(l.fields["Line"])
-		cn, cf, ok2 := posExpr(l.fields["Column"])
+		ln, lf, ok1 := posExpr(l.fields["Line"], l.env)
+		cn, cf, ok2 := posExpr(l.fields["Column"], l.env)
 		construct := fmt.Sprintf("position:%s", l.name)
 		switch {
 		case !ok1 || !ok2:
@@ -297,12 +425,15 @@ func Run(p *load.Prog, r *oblig.Report) {
 			// the node must be the one whose Value/Tag the literal reports or the enclosing branch examined
 			okNode := true
 			if val, has := l.fields["Value"]; has && l.name == "ModFileStringProperty" {
-				if vp := e5path.AccessPath(val); vp != ln+".Value" {
+				if vp := envPath(val, l.env); vp != ln+".Value" {
 					okNode = false
 				}
 			}
 			if msg, has := l.fields["Msg"]; has {
 				// messages that quote a node's value must quote the node they point at
+				if prm, isP := msg.(*ssa.Parameter); isP && l.env[prm] != nil {
+					msg = l.env[prm] // the message is built by the caller of the constructor helper
+				}
 				if bo, isB := msg.(*ssa.BinOp); isB {
 					if q := e5path.AccessPath(bo.Y); strings.HasSuffix(q, ".Value") && q != ln+".Value" {
 						okNode = false
@@ -419,8 +550,11 @@ func loopPaths(p *load.Prog, r *oblig.Report) {
 	var loop *ast.RangeStmt
 	ast.Inspect(fd.Body, func(n ast.Node) bool {
 		if rs, ok := n.(*ast.RangeStmt); ok && loop == nil {
-			if strings.HasSuffix(types.ExprString(rs.X), "Contents.Content") {
-				loop = rs
+			// the loop over the items of the contents node: the only range over a list of YAML nodes
+			if tv, ok := info.Types[rs.X]; ok {
+				if sl, isSlice := tv.Type.Underlying().(*types.Slice); isSlice && strings.HasSuffix(sl.Elem().String(), "yaml.v3.Node") {
+					loop = rs
+				}
 			}
 		}
 		return true
@@ -541,3 +675,140 @@ func loopPaths(p *load.Prog, r *oblig.Report) {
 }
 
 func clonePaths[T any](in []T) []T { return append([]T(nil), in...) }
+
+// helperForwardsDecodeError: every return of h with a nil error is dominated by the decode error being nil
+// (so a nil error of the helper means the decode succeeded).
+func helperForwardsDecodeError(h *ssa.Function, decodeTuple ssa.Value) bool {
+	if h == nil || decodeTuple == nil {
+		return false
+	}
+	rets := e5path.SuccessReturns(h)
+	if len(rets) == 0 {
+		return false
+	}
+	for _, ret := range rets {
+		ok := false
+		for _, ce := range e5path.DominatingConds(ret.Block()) {
+			if c, isB := ce.Cond.(*ssa.BinOp); isB {
+				if ex, isEx := c.X.(*ssa.Extract); isEx && ex.Tuple == decodeTuple && ex.Index == 1 {
+					if cn, isC := c.Y.(*ssa.Const); isC && cn.IsNil() && ((c.Op == token.NEQ && !ce.Branch) || (c.Op == token.EQL && ce.Branch)) {
+						ok = true
+					}
+				}
+			}
+		}
+		if !ok {
+			return false
+		}
+	}
+	return true
+}
+
+type impliedTest struct {
+	call   *ssa.Call
+	branch bool
+}
+
+// impliedTests: the library predicate calls whose outcome is determined whenever the boolean helper h
+// returns want (facts common to every way of returning want). Handles straight returns of a call,
+// negation, and short-circuit && / || (compiled to phis).
+func impliedTests(h *ssa.Function, want bool) []impliedTest {
+	var all [][]impliedTest
+	for _, b := range h.Blocks {
+		ret, ok := b.Instrs[len(b.Instrs)-1].(*ssa.Return)
+		if !ok || len(ret.Results) != 1 {
+			continue
+		}
+		base := pathTests(b)
+		for _, alt := range valueTests(ret.Results[0], want, 0) {
+			if alt == nil {
+				continue // this way of producing the value cannot yield want
+			}
+			all = append(all, append(append([]impliedTest{}, base...), alt.tests...))
+		}
+	}
+	if len(all) == 0 {
+		return nil
+	}
+	// intersection over the alternatives
+	var out []impliedTest
+	for _, t := range all[0] {
+		inAll := true
+		for _, other := range all[1:] {
+			found := false
+			for _, o := range other {
+				if o == t {
+					found = true
+				}
+			}
+			if !found {
+				inAll = false
+			}
+		}
+		if inAll {
+			out = append(out, t)
+		}
+	}
+	return out
+}
+
+type testAlt struct{ tests []impliedTest }
+
+func pathTests(b *ssa.BasicBlock) []impliedTest {
+	var out []impliedTest
+	for _, ce := range e5path.DominatingConds(b) {
+		for _, alt := range valueTests(ce.Cond, ce.Branch, 0) {
+			if alt != nil {
+				out = append(out, alt.tests...)
+				break
+			}
+		}
+	}
+	return out
+}
+
+// valueTests: the ways v can have the boolean value want, each with the predicate calls it fixes; a nil entry is an impossible way.
+func valueTests(v ssa.Value, want bool, depth int) []*testAlt {
+	if depth > 6 {
+		return []*testAlt{{}}
+	}
+	switch x := v.(type) {
+	case *ssa.Const:
+		if x.Value != nil && (x.Value.String() == "true") == want {
+			return []*testAlt{{}}
+		}
+		return []*testAlt{nil}
+	case *ssa.Call:
+		return []*testAlt{{tests: []impliedTest{{x, want}}}}
+	case *ssa.UnOp:
+		if x.Op == token.NOT {
+			return valueTests(x.X, !want, depth+1)
+		}
+	case *ssa.Phi:
+		var out []*testAlt
+		for i, e := range x.Edges {
+			pred := x.Block().Preds[i]
+			base := pathTests(pred)
+			if ifi, ok := pred.Instrs[len(pred.Instrs)-1].(*ssa.If); ok {
+				br := pred.Succs[0] == x.Block()
+				for _, alt := range valueTests(ifi.Cond, br, depth+1) {
+					if alt != nil {
+						base = append(base, alt.tests...)
+						break
+					}
+				}
+			}
+			for _, alt := range valueTests(e, want, depth+1) {
+				if alt == nil {
+					continue
+				}
+				out = append(out, &testAlt{tests: append(append([]impliedTest{}, base...), alt.tests...)})
+			}
+		}
+		if len(out) == 0 {
+			return []*testAlt{nil}
+		}
+		return out
+	}
+	return []*testAlt{{}}
+}
